@@ -3,7 +3,7 @@ From RsdnsModel Require Import Base Names Writer.
 From RsdnsModel.Spec Require Import NameText.
 From RsdnsModel.Proofs Require Import WriterSafe WriterLayout.
 From RsdnsModel Require Import Client Timed TimedApi.
-From RsdnsModel.Proofs Require Import TimedCalls.
+From RsdnsModel.Proofs Require Import TimedProofs TimedCalls.
 Open Scope N_scope.
 
 (* The query writer never writes outside its buffer: for every buffer (any capacity, 0 included),
@@ -81,3 +81,12 @@ Theorem C11_wire_is_the_query : forall std smol q cfg jit proc buf arrs srv dgra
   (forall b, tcp = Some b -> b = be_bytes 2 (lenN m mod 65536) ++ m) /\
   (tcp <> None <-> In EvTcpExchange ev).
 Proof. exact call_wire_is_the_query. Qed.
+
+(* ALL FOUR CLIENTS EMIT THE SAME BYTES — over time, in every world (exact timers): the whole query_raw
+   call of the blocking client and of the async clients on each runtime put the same datagrams on the
+   wire at the same instants, write the same bytes to TCP, and return the same result at the same instant *)
+Theorem C11_all_clients_same_over_time : forall smol smol' q cfg buf arrs srv,
+  qt_pos (cc_qt cfg) -> 0 < cc_lifetime cfg ->
+  client_call_timed true smol q cfg zero_jit zero_jit buf arrs srv =
+  client_call_timed false smol' q cfg zero_jit zero_jit buf arrs srv.
+Proof. exact call_all_clients_same. Qed.
